@@ -2,12 +2,44 @@
 
 use vcore::Tier;
 
+mod c05;
 mod c26;
 mod c27;
 mod c30;
+mod sqlprobe;
+mod hist;
+mod histrun;
+mod refdb;
+mod world;
 
 fn main() {
     let args: Vec<String> = std::env::args().collect();
+    if args.len() >= 2 && args[1] == "SQL" {
+        std::process::exit(sqlprobe::main());
+    }
+    if args.len() >= 2 && args[1] == "BENCH" {
+        let t0 = std::time::Instant::now();
+        for _ in 0..20 {
+            let db = world::Db::create("bench");
+            let _ = db.exec("CREATE TABLE t (a INT PRIMARY KEY, b TEXT)");
+            let _ = db.exec("INSERT INTO t VALUES (1, 'x')");
+            let _ = db.query("SELECT * FROM t");
+        }
+        println!("20 create+3 stmts: {:?}", t0.elapsed());
+        let db = world::Db::create("bench");
+        let _ = db.exec("CREATE TABLE t (a INT PRIMARY KEY, b TEXT)");
+        let t0 = std::time::Instant::now();
+        for i in 0..200 {
+            let _ = db.exec(&format!("INSERT INTO t VALUES ({}, 'x')", i));
+        }
+        println!("200 inserts: {:?}", t0.elapsed());
+        let t0 = std::time::Instant::now();
+        for i in 0..200 {
+            let _ = db.query(&format!("SELECT * FROM t WHERE a = {}", i));
+        }
+        println!("200 selects: {:?}", t0.elapsed());
+        std::process::exit(0);
+    }
     if args.len() < 3 {
         eprintln!("usage: vcheck <Cnn> <quick|thorough>|--replay <file>");
         std::process::exit(2);
@@ -19,6 +51,7 @@ fn main() {
         _ => Tier::Quick,
     };
     let code = match prop {
+        "C05" => c05::main(tier, replay.clone()),
         "C26" => c26::main(tier, replay.clone()),
         "C27" => c27::main(tier, replay.clone()),
         "C30" => c30::main(tier, replay.clone()),
